@@ -1,0 +1,281 @@
+//go:build verif
+
+// Contracts for contract-based deductive verification (checked by /verif/govc).
+// This file is comment-only and compiled only with the build tag "verif".
+// C03/C01/C09/C13: CPU supply accounting (resources.go).
+
+package topologyaware
+
+// ---- the pool tree as seen through the Node interface ---------------------------------------------------------------
+// Node has four implementations (socket, die, NUMA and virtual nodes) that all embed `node`; the tree is built once
+// per configuration (C16) and not changed by allocations, so its shape is described by state-independent
+// specification functions: parent link, nil-node test, id, depth, policy back pointer and the node's free supply
+// object (whose *fields* are of course mutable state).
+//@ pure nParent(n Node) Node
+//@ pure nIsNil(n Node) bool
+//@ pure nID(n Node) int
+//@ pure nDepth(n Node) int
+//@ pure nPolicy(n Node) *policy
+//@ pure nFree(n Node) Supply
+//@ pure nd(n Node) *node
+//@ iface github.com/containers/nri-plugins/cmd/plugins/topology-aware/policy.Node.Parent
+//@   ensures result == nParent(self)
+//@ iface github.com/containers/nri-plugins/cmd/plugins/topology-aware/policy.Node.IsNil
+//@   ensures result == nIsNil(self)
+//@ iface github.com/containers/nri-plugins/cmd/plugins/topology-aware/policy.Node.NodeID
+//@   ensures result == nID(self)
+//@ iface github.com/containers/nri-plugins/cmd/plugins/topology-aware/policy.Node.IsSameNode
+//@   ensures result == (nID(self) == nID(arg0))
+//@ iface github.com/containers/nri-plugins/cmd/plugins/topology-aware/policy.Node.Policy
+//@   ensures result == nPolicy(self)
+//@ iface github.com/containers/nri-plugins/cmd/plugins/topology-aware/policy.Node.FreeSupply
+//@   ensures result == nFree(self)
+
+// The granted capacity of a subtree (recursive sum over the children) is not computed in the logic: it is an
+// abstract function of the node and of the current grantedShared / grantedReserved fields of all supplies.
+//@ assume-contract (*node).GrantedSharedCPU abstract
+//@   reads comp supply.grantedShared
+//@   modifies nothing
+//@ assume-contract (*node).GrantedReservedCPU abstract
+//@   reads comp supply.grantedReserved
+//@   modifies nothing
+//@ iface github.com/containers/nri-plugins/cmd/plugins/topology-aware/policy.Node.GrantedSharedCPU
+//@   ensures result == nd(self).GrantedSharedCPU()
+//@ iface github.com/containers/nri-plugins/cmd/plugins/topology-aware/policy.Node.GrantedReservedCPU
+//@   ensures result == nd(self).GrantedReservedCPU()
+
+// Tree well-formedness (assumed of the built tree, C16): depth decreases by one towards the root, the root is the
+// node whose parent is the nil node, and ancAt(n, k) names the ancestor-or-self of n at depth k.
+//@ pure ancAt(n Node, k int) Node
+//@ pure chainOK(n Node) bool = n != nil && !nIsNil(n) && nDepth(n) >= 0 && ancAt(n, nDepth(n)) == n &&
+//@    (forall k int :: 0 <= k && k <= nDepth(n) ==> ancAt(n, k) != nil && !nIsNil(ancAt(n, k)) && nDepth(ancAt(n, k)) == k &&
+//@         nParent(ancAt(n, k)) != nil && nFree(ancAt(n, k)) != nil && (k > 0 ==> nParent(ancAt(n, k)) == ancAt(n, k - 1)) && (k == 0 ==> nIsNil(nParent(ancAt(n, k)))))
+
+// free shared / reserved capacity of one supply: 1000 mCPU per CPU minus what its node's subtree was promised
+//@ pure capShared(s *supply) int = 1000 * s.sharable.Size() - nd(s.node).GrantedSharedCPU()
+//@ pure capReserved(s *supply) int = 1000 * s.reserved.Size() - nd(s.node).GrantedReservedCPU()
+
+// ---- AllocatableSharedCPU / AllocatableReservedCPU (C03): the minimum over the node and ALL its ancestors --------------
+//@ func (*supply).AllocatableSharedCPU
+//@   requires cs != nil && cs.node != nil && chainOK(cs.node)
+//@   requires forall k int :: 0 <= k && k <= nDepth(cs.node) ==> sup(nFree(ancAt(cs.node, k))).node != nil
+//@   modifies nothing
+//@   ensures[C03] result <= capShared(cs)
+//@   ensures[C03] forall k int :: 0 <= k && k < nDepth(cs.node) ==> result <= capShared(sup(nFree(ancAt(cs.node, k))))
+//@   ensures[C03] result == capShared(cs) || (exists k int :: 0 <= k && k < nDepth(cs.node) && result == capShared(sup(nFree(ancAt(cs.node, k)))))
+//@ loop 0 in (*supply).AllocatableSharedCPU at "node := cs.node.Parent()"
+//@   invariant node != nil && (nIsNil(node) || (0 <= nDepth(node) && nDepth(node) < nDepth(cs.node) && node == ancAt(cs.node, nDepth(node))))
+//@   invariant shared <= capShared(cs)
+//@   invariant forall k int :: (nIsNil(node) ? 0 <= k : nDepth(node) < k) && k < nDepth(cs.node) ==> shared <= capShared(sup(nFree(ancAt(cs.node, k))))
+//@   invariant shared == capShared(cs) || (exists k int :: (nIsNil(node) ? 0 <= k : nDepth(node) < k) && k < nDepth(cs.node) && shared == capShared(sup(nFree(ancAt(cs.node, k)))))
+
+//@ func (*supply).AllocatableReservedCPU
+//@   requires cs != nil && cs.node != nil && chainOK(cs.node)
+//@   requires forall k int :: 0 <= k && k <= nDepth(cs.node) ==> sup(nFree(ancAt(cs.node, k))).node != nil
+//@   modifies nothing
+//@   ensures[C03] cs.reserved.IsEmpty() ==> result == -1
+//@   ensures[C03] !cs.reserved.IsEmpty() ==> result <= capReserved(cs)
+//@   ensures[C03] !cs.reserved.IsEmpty() ==> (forall k int :: 0 <= k && k < nDepth(cs.node) ==> result <= capReserved(sup(nFree(ancAt(cs.node, k)))))
+//@   ensures[C03] !cs.reserved.IsEmpty() ==> result == capReserved(cs) || (exists k int :: 0 <= k && k < nDepth(cs.node) && result == capReserved(sup(nFree(ancAt(cs.node, k)))))
+//@ loop 0 in (*supply).AllocatableReservedCPU at "node := cs.node.Parent()"
+//@   invariant node != nil && (nIsNil(node) || (0 <= nDepth(node) && nDepth(node) < nDepth(cs.node) && node == ancAt(cs.node, nDepth(node))))
+//@   invariant reserved <= capReserved(cs) && !cs.reserved.IsEmpty()
+//@   invariant forall k int :: (nIsNil(node) ? 0 <= k : nDepth(node) < k) && k < nDepth(cs.node) ==> reserved <= capReserved(sup(nFree(ancAt(cs.node, k))))
+//@   invariant reserved == capReserved(cs) || (exists k int :: (nIsNil(node) ? 0 <= k : nDepth(node) < k) && k < nDepth(cs.node) && reserved == capReserved(sup(nFree(ancAt(cs.node, k)))))
+
+// ---- total supply of a pool: GetSupply() returns a fresh copy of the node's (immutable) capacity --------------------------
+//@ pure nTotal(n Node) Supply
+//@ pure tot(n Node) *supply = nTotal(n)
+//@ iface github.com/containers/nri-plugins/cmd/plugins/topology-aware/policy.Node.GetSupply
+//@   ensures fresh(result) && sup(result).isolated == tot(self).isolated && sup(result).reserved == tot(self).reserved && sup(result).sharable == tot(self).sharable
+//@   ensures sup(result).node == tot(self).node && sup(result).grantedShared == tot(self).grantedShared && sup(result).grantedReserved == tot(self).grantedReserved
+
+// Grant and Request have the single implementations *grant and *request
+//@ pure gr(g Grant) *grant = g
+//@ pure rq(r Request) *request = r
+//@ pure sharedPortion(g *grant) int = g.cpuType == cpuNormal ? g.cpuPortion : 0
+//@ pure reservedPortion(g *grant) int = g.cpuType == cpuReserved ? g.cpuPortion : 0
+
+// ---- supply.AccountAllocateCPU / AccountReleaseCPU (C01): exclusive CPUs of a grant leave / re-enter another pool ------
+//@ func (*supply).AccountAllocateCPU
+//@   requires cs != nil && cs.node != nil && g != nil && gr(g).node != nil
+//@   modifies cs.isolated, cs.sharable
+//@   ensures[C01] nID(cs.node) == nID(gr(g).node) ==> cs.isolated.Equals(old(cs.isolated)) && cs.sharable.Equals(old(cs.sharable))
+//@   ensures[C01] nID(cs.node) != nID(gr(g).node) ==> cs.isolated.Equals(old(cs.isolated).Difference(gr(g).exclusive)) && cs.sharable.Equals(old(cs.sharable).Difference(gr(g).exclusive))
+//@   ensures[C01] nID(cs.node) != nID(gr(g).node) ==> cs.isolated.Intersection(gr(g).exclusive).IsEmpty() && cs.sharable.Intersection(gr(g).exclusive).IsEmpty()
+
+//@ func (*supply).AccountReleaseCPU
+//@   requires cs != nil && cs.node != nil && g != nil && gr(g).node != nil && nTotal(cs.node) != nil
+//@   modifies cs.isolated, cs.sharable
+//@   ensures[C01,C09] nID(cs.node) == nID(gr(g).node) ==> cs.isolated.Equals(old(cs.isolated)) && cs.sharable.Equals(old(cs.sharable))
+//@   ensures[C01,C09] nID(cs.node) != nID(gr(g).node) ==> cs.isolated.Equals(old(cs.isolated).Union(gr(g).exclusive.Intersection(tot(cs.node).isolated)))
+//@   ensures[C01,C09] nID(cs.node) != nID(gr(g).node) ==> cs.sharable.Equals(old(cs.sharable).Union(gr(g).exclusive.Intersection(tot(cs.node).sharable)))
+//@   # inverse of AccountAllocateCPU for a pool whose free sets lie within its capacity (C09)
+//@   ensures[C09] old(cs.isolated).IsSubsetOf(tot(cs.node).isolated) && old(cs.sharable).IsSubsetOf(tot(cs.node).sharable) && tot(cs.node).isolated.Intersection(tot(cs.node).sharable).IsEmpty() ==>
+//@        cs.isolated.Difference(gr(g).exclusive).Equals(old(cs.isolated).Difference(gr(g).exclusive)) && cs.sharable.Difference(gr(g).exclusive).Equals(old(cs.sharable).Difference(gr(g).exclusive)) &&
+//@        cs.isolated.IsSubsetOf(tot(cs.node).isolated) && cs.sharable.IsSubsetOf(tot(cs.node).sharable)
+
+// ---- grant.AccountAllocateCPU / AccountReleaseCPU: ASSUMED (they walk the tree with DepthFirst and a closure) ----------
+// They apply supply.AccountAllocateCPU / AccountReleaseCPU (verified above) to the free supply of every pool in the
+// subtree of the grant's pool and of every proper ancestor ("related" pools); nothing else changes.
+//@ pure related(a Node, b Node) bool
+//@ pure below(a Node, b Node) bool
+//@ pure poolOf(s *supply) Node
+//@ pure touched(s *supply, n Node) bool = poolOf(s) != nil && related(n, poolOf(s)) && nID(s.node) != nID(n)
+//@ assume-contract (*grant).AccountAllocateCPU
+//@   modifies comp supply.isolated, comp supply.sharable
+//@   ensures forall s *supply :: s.isolated == (touched(s, cg.node) ? old(s.isolated).Difference(cg.exclusive) : old(s.isolated))
+//@   ensures forall s *supply :: s.sharable == (touched(s, cg.node) ? old(s.sharable).Difference(cg.exclusive) : old(s.sharable))
+//@ assume-contract (*grant).AccountReleaseCPU
+//@   modifies comp supply.isolated, comp supply.sharable
+//@   ensures forall s *supply :: s.isolated == (touched(s, cg.node) ? old(s.isolated).Union(cg.exclusive.Intersection(tot(s.node).isolated)) : old(s.isolated))
+//@   ensures forall s *supply :: s.sharable == (touched(s, cg.node) ? old(s.sharable).Union(cg.exclusive.Intersection(tot(s.node).sharable)) : old(s.sharable))
+
+// ---- takeCPUs: the allocator's contract, applied to one of the supply's sets -----------------------------------------
+//@ pure polAlloc(n Node) cpuallocator.CPUAllocator = nPolicy(n).cpuAllocator
+//@ func (*supply).takeCPUs
+//@   requires cs != nil && cs.node != nil && to == nil && nPolicy(cs.node) != nil && polAlloc(cs.node) != nil
+//@   let F0 = *from
+//@   modifies *from
+//@   ensures[C01,C03] cnt >= 0 && caOK(polAlloc(cs.node), F0) && result1 == nil ==> result0.Size() == cnt && result0.IsSubsetOf(F0) && (*from).Equals(F0.Difference(result0))
+//@   ensures[C01,C03] cnt >= 0 && caOK(polAlloc(cs.node), F0) && result1 != nil ==> (*from).Equals(F0)
+
+// ---- supply.AllocateCPU (C01/C03/C12) --------------------------------------------------------------------------------
+// effective request: exclusive reserved CPUs are not supported, they are served as reserved fractions
+//@ pure effFull(r *request) int = (r.cpuType == cpuReserved && r.full > 0) ? 0 : r.full
+//@ pure effFraction(r *request) int = (r.cpuType == cpuReserved && r.full > 0) ? r.fraction + 1000 * r.full : r.fraction
+//@ pure wantsIsolated(cs *supply, r *request) bool = effFull(r) > 0 && r.isolate && cs.isolated.Size() >= effFull(r)
+// the pool's free sets are disjoint, lie inside its capacity, and consist of online CPUs known to the allocator
+// (the capacity object of a pool is not the free supply of any pool: allocations never change it)
+//@ pure supplyOK(cs *supply) bool = cs != nil && cs.node != nil && chainOK(cs.node) && nTotal(cs.node) != nil && cs != tot(cs.node) && poolOf(tot(cs.node)) == nil &&
+//@    (forall k int :: 0 <= k && k <= nDepth(cs.node) ==> sup(nFree(ancAt(cs.node, k))).node != nil) &&
+//@    nPolicy(cs.node) != nil && polAlloc(cs.node) != nil && caOK(polAlloc(cs.node), cs.isolated) && caOK(polAlloc(cs.node), cs.sharable) &&
+//@    cs.isolated.Intersection(cs.sharable).IsEmpty() && cs.isolated.IsSubsetOf(tot(cs.node).isolated) && cs.sharable.IsSubsetOf(tot(cs.node).sharable) &&
+//@    tot(cs.node).isolated.Intersection(tot(cs.node).sharable).IsEmpty()
+//@ func (*supply).AllocateCPU
+//@   requires supplyOK(cs) && r != nil && typeis(r, *request) && rq(r).full >= 0
+//@   let cr = rq(r)
+//@   let I0 = cs.isolated
+//@   let S0 = cs.sharable
+//@   let full = effFull(rq(r))
+//@   let frac = effFraction(rq(r))
+//@   let iso = wantsIsolated(cs, rq(r))
+//@   # (no modifies clause: the frame is what the body may write - fields of supplies and of the new grant - and the
+//@   #  clauses below pin down every supply field)
+//@   ensures[C01,C03] forall s *supply :: s != cs ==> s.grantedShared == old(s.grantedShared) && s.grantedReserved == old(s.grantedReserved) && s.reserved == old(s.reserved) && s.node == old(s.node)
+//@   ensures[C01,C03] cs.reserved == old(cs.reserved) && cs.node == old(cs.node)
+//@   ensures[C01,C03] err == nil ==> fresh(result0) && gr(result0).node == cs.node && gr(result0).container == cr.container
+//@   # exactly the whole-CPU part of the (effective) request, from the isolated set only if all of them can be isolated
+//@   ensures[C03] err == nil ==> gr(result0).exclusive.Size() == full
+//@   ensures[C01,C03] err == nil && iso ==> gr(result0).exclusive.IsSubsetOf(I0)
+//@   ensures[C01,C03] err == nil && !iso ==> gr(result0).exclusive.IsSubsetOf(S0)
+//@   # slicing the sharable set is admitted only if this pool and every ancestor has more than 1000*full mCPU unpromised
+//@   ensures[C03] err == nil && full > 0 && !iso ==> old(capShared(cs)) > 1000 * full &&
+//@        (forall k int :: 0 <= k && k < nDepth(cs.node) ==> old(capShared(sup(nFree(ancAt(cs.node, k))))) > 1000 * full)
+//@   # ... taken out of the free sets, hence disjoint from what remains
+//@   ensures[C01] err == nil ==> cs.isolated.Equals(I0.Difference(gr(result0).exclusive)) && cs.sharable.Equals(S0.Difference(gr(result0).exclusive))
+//@   ensures[C01] err == nil ==> cs.isolated.Intersection(gr(result0).exclusive).IsEmpty() && cs.sharable.Intersection(gr(result0).exclusive).IsEmpty()
+//@   # capacity bookkeeping matches the grant that is returned: same CPU type on the grant and in the accounting
+//@   ensures[C03] err == nil ==> gr(result0).cpuPortion == (frac > 0 ? frac : 0)
+//@   ensures[C03] err == nil ==> cs.grantedShared == old(cs.grantedShared) + sharedPortion(gr(result0)) && cs.grantedReserved == old(cs.grantedReserved) + reservedPortion(gr(result0))
+//@   # CPU class: reserved CPUs only for reserved-class requests (C01); preserve stays preserve (C12)
+//@   ensures[C01,C12] err == nil ==> (cr.cpuType != cpuReserved ==> gr(result0).cpuType == cr.cpuType) && (cr.cpuType == cpuReserved ==> gr(result0).cpuType == cpuReserved || gr(result0).cpuType == cpuNormal)
+//@   # the related pools lose the exclusive CPUs, every other supply is untouched
+//@   ensures[C01] err == nil ==> (forall s *supply :: s != cs ==> s.isolated == (touched(s, cs.node) ? old(s.isolated).Difference(gr(result0).exclusive) : old(s.isolated)))
+//@   ensures[C01] err == nil ==> (forall s *supply :: s != cs ==> s.sharable == (touched(s, cs.node) ? old(s.sharable).Difference(gr(result0).exclusive) : old(s.sharable)))
+//@   # C03 for the pools BELOW this one: what they promised still fits their shrunken shared sets. NOT DISCHARGED - genuine
+//@   # defect: only this pool and its ancestors are checked before slicing (see the report: a child pool is left with an
+//@   # empty shared set while it hosts shared containers, which are then told the empty cpuset).
+//@   ensures[C03] err == nil ==> (forall s *supply :: poolOf(s) != nil && below(cs.node, poolOf(s)) && old(capShared(s)) >= 0 && !old(s.sharable).IsEmpty() ==> capShared(s) >= 0 && !s.sharable.IsEmpty())
+//@   # failure leaves this supply as it was (C09)
+//@   ensures[C09] err != nil ==> cs.isolated.Equals(I0) && cs.sharable.Equals(S0) && cs.grantedShared == old(cs.grantedShared) && cs.grantedReserved == old(cs.grantedReserved)
+
+// the state after the exclusive CPUs were taken and accounted for (helps the error paths that undo it)
+//@ assert[C09,C01] in (*supply).AllocateCPU at "if fraction > 0 {": gr(grant).exclusive == exclusive && (exclusive.IsSubsetOf(old(cs.isolated)) || exclusive.IsSubsetOf(old(cs.sharable))) &&
+//@    cs.isolated.Equals(old(cs.isolated).Difference(exclusive)) && cs.sharable.Equals(old(cs.sharable).Difference(exclusive)) &&
+//@    cs.grantedShared == old(cs.grantedShared) && cs.grantedReserved == old(cs.grantedReserved) && gr(grant).cpuPortion == 0 && gr(grant).node == cs.node
+
+// reserved-class requests never get exclusive CPUs
+//@ assert[C09,C01] in (*supply).AllocateCPU at "if cs.AllocatableReservedCPU() < fraction": exclusive.IsEmpty()
+
+// a fraction is promised only if, after the exclusive CPUs have left the shared sets, this pool and every ancestor
+// still has that much shared (reserved) capacity unpromised
+//@ assert[C03] in (*supply).AllocateCPU at "cs.grantedShared += fraction": capShared(cs) >= fraction &&
+//@    (forall k int :: 0 <= k && k < nDepth(cs.node) ==> capShared(sup(nFree(ancAt(cs.node, k)))) >= fraction)
+//@ assert[C03] in (*supply).AllocateCPU at "cs.grantedReserved += fraction": !cs.reserved.IsEmpty() && capReserved(cs) >= fraction &&
+//@    (forall k int :: 0 <= k && k < nDepth(cs.node) ==> capReserved(sup(nFree(ancAt(cs.node, k)))) >= fraction)
+
+// ---- supply.ReleaseCPU (C09): the inverse of AllocateCPU for the grant's own pool ------------------------------------------
+//@ func (*supply).ReleaseCPU
+//@   requires cs != nil && cs.node != nil && nTotal(cs.node) != nil && g != nil && gr(g).node != nil && nID(gr(g).node) == nID(cs.node)
+//@   let E = gr(g).exclusive
+//@   let TI = tot(cs.node).isolated
+//@   modifies cs.grantedShared, cs.grantedReserved, comp supply.isolated, comp supply.sharable
+//@   ensures[C09,C01] cs.isolated.Equals(old(cs.isolated).Union(E.Intersection(TI))) && cs.sharable.Equals(old(cs.sharable).Union(E.Difference(TI)))
+//@   ensures[C09,C03] cs.grantedShared == old(cs.grantedShared) - sharedPortion(gr(g)) && cs.grantedReserved == old(cs.grantedReserved) - reservedPortion(gr(g))
+//@   ensures[C09,C01] forall s *supply :: s != cs ==> s.isolated == (touched(s, gr(g).node) ? old(s.isolated).Union(E.Intersection(tot(s.node).isolated)) : old(s.isolated))
+//@   ensures[C09,C01] forall s *supply :: s != cs ==> s.sharable == (touched(s, gr(g).node) ? old(s.sharable).Union(E.Intersection(tot(s.node).sharable)) : old(s.sharable))
+
+// AllocateCPU followed by ReleaseCPU restores the free sets of the pool itself (I0/S0: free isolated/sharable before
+// the allocation, E: the exclusive CPUs, TI: the pool's isolated capacity) and of a related pool (I: its free set, T: its capacity)
+//@ lemma[C09] ReleaseUndoesAllocate(I0 cpuset.CPUSet, S0 cpuset.CPUSet, E cpuset.CPUSet, TI cpuset.CPUSet):
+//@    (E.IsSubsetOf(I0) || E.IsSubsetOf(S0)) && I0.IsSubsetOf(TI) && S0.Intersection(TI).IsEmpty() ==>
+//@    I0.Difference(E).Union(E.Intersection(TI)).Equals(I0) && S0.Difference(E).Union(E.Difference(TI)).Equals(S0)
+//@ lemma[C09] ReleaseUndoesAccount(I cpuset.CPUSet, E cpuset.CPUSet, T cpuset.CPUSet):
+//@    I.IsSubsetOf(T) && E.Intersection(T).IsSubsetOf(I) ==> I.Difference(E).Union(E.Intersection(T)).Equals(I)
+
+// ---- grant.Release (C09): the CPU part is ReleaseCPU of the free supply of the grant's pool, the memory part is
+// libmem's Release (C06), the cold-start timer is stopped --------------------------------------------------------------------
+//@ pure fs(g *grant) *supply = sup(nFree(g.node))
+//@ pure releasable(g *grant) bool = g != nil && g.node != nil && g.container != nil && nFree(g.node) != nil && fs(g).node != nil && nID(fs(g).node) == nID(g.node) &&
+//@    nTotal(fs(g).node) != nil && tot(fs(g).node) != fs(g) && poolOf(tot(fs(g).node)) == nil && nPolicy(g.node) != nil && nPolicy(g.node).memAllocator != nil
+//@ func (*grant).Release
+//@   requires releasable(cg) && libmem.idle(nPolicy(cg.node).memAllocator)
+//@   let E = cg.exclusive
+//@   let TI = tot(fs(cg).node).isolated
+//@   ensures[C09,C01] fs(cg).isolated.Equals(old(fs(cg).isolated).Union(E.Intersection(TI))) && fs(cg).sharable.Equals(old(fs(cg).sharable).Union(E.Difference(TI)))
+//@   ensures[C09,C03] fs(cg).grantedShared == old(fs(cg).grantedShared) - sharedPortion(cg) && fs(cg).grantedReserved == old(fs(cg).grantedReserved) - reservedPortion(cg)
+//@   ensures[C09,C01] forall s *supply :: s != fs(cg) ==> s.isolated == (touched(s, cg.node) ? old(s.isolated).Union(E.Intersection(tot(s.node).isolated)) : old(s.isolated))
+//@   ensures[C09,C01] forall s *supply :: s != fs(cg) ==> s.sharable == (touched(s, cg.node) ? old(s.sharable).Union(E.Intersection(tot(s.node).sharable)) : old(s.sharable))
+//@   ensures[C09] forall s *supply :: s != fs(cg) ==> s.grantedShared == old(s.grantedShared) && s.grantedReserved == old(s.grantedReserved)
+//@   ensures[C09] cg.coldStartTimer == nil
+
+// ---- supply.Reserve (C13/C01/C03): re-account a reinstated grant --------------------------------------------------------
+// Preconditions: cs is the free supply of the grant's pool; reserved-class grants hold no exclusive CPUs (AllocateCPU);
+// the memory offer satisfies the precondition of libmem's (*Offer).Commit (C06) and is current (reinstateGrants asks for
+// it immediately before), so that Commit cannot fail: the g.Release() path is then unreachable.
+//@ pure grantIso(g *grant) cpuset.CPUSet = tot(g.node).isolated.Intersection(g.exclusive)
+//@ pure grantSliced(g *grant) cpuset.CPUSet = g.exclusive.Difference(tot(g.node).isolated)
+//@ func (*supply).Reserve
+//@   requires supplyOK(cs) && g != nil && gr(g).node != nil && nID(gr(g).node) == nID(cs.node) && nTotal(gr(g).node) != nil && poolOf(tot(gr(g).node)) == nil && tot(gr(g).node) != cs
+//@   requires gr(g).cpuType == cpuReserved ==> gr(g).exclusive.IsEmpty()
+//@   requires o != nil && o.a != nil && libmem.idle(o.a) && o.version == o.a.version && libmem.offerok(o)
+//@   let G = gr(g)
+//@   let I0 = cs.isolated
+//@   let S0 = cs.sharable
+//@   let GI = grantIso(gr(g))
+//@   let GS = grantSliced(gr(g))
+//@   # a normal grant gets back exactly its isolated and its sliced-off exclusive CPUs, which must all still be free
+//@   ensures[C13,C01] result1 == nil && G.cpuType == cpuNormal ==> GI.IsSubsetOf(I0) && GS.IsSubsetOf(S0) && cs.isolated.Equals(I0.Difference(GI)) && cs.sharable.Equals(S0.Difference(GS))
+//@   ensures[C13,C01] result1 == nil && G.cpuType == cpuNormal ==> cs.isolated.Intersection(G.exclusive).IsEmpty() && cs.sharable.Intersection(G.exclusive).IsEmpty()
+//@   ensures[C13,C01] result1 == nil && G.cpuType != cpuNormal ==> cs.isolated.Equals(I0) && cs.sharable.Equals(S0)
+//@   # capacity bookkeeping matches the grant (same CPU type on the grant and in the accounting)
+//@   ensures[C13,C03] result1 == nil ==> cs.grantedShared == old(cs.grantedShared) + sharedPortion(G) && cs.grantedReserved == old(cs.grantedReserved) + reservedPortion(G)
+//@   # admission: the pool and every ancestor had the capacity the grant claims
+//@   ensures[C13,C03] result1 == nil && G.cpuType == cpuNormal ==> old(capShared(cs)) >= 1000 * GS.Size() + sharedPortion(G) &&
+//@        (forall k int :: 0 <= k && k < nDepth(cs.node) ==> old(capShared(sup(nFree(ancAt(cs.node, k))))) >= 1000 * GS.Size() + sharedPortion(G))
+//@   ensures[C13,C03] result1 == nil && G.cpuType == cpuReserved && reservedPortion(G) > 0 ==> !cs.reserved.IsEmpty() && old(capReserved(cs)) >= reservedPortion(G) &&
+//@        (forall k int :: 0 <= k && k < nDepth(cs.node) ==> old(capReserved(sup(nFree(ancAt(cs.node, k))))) >= reservedPortion(G))
+//@   # related pools lose the grant's exclusive CPUs
+//@   ensures[C13,C01] result1 == nil ==> (forall s *supply :: s != cs ==> s.isolated == (touched(s, G.node) ? old(s.isolated).Difference(G.exclusive) : old(s.isolated)))
+//@   ensures[C13,C01] result1 == nil ==> (forall s *supply :: s != cs ==> s.sharable == (touched(s, G.node) ? old(s.sharable).Difference(G.exclusive) : old(s.sharable)))
+
+// ---- supply.Allocate (C09): a failed allocation (no offer, no CPU, or the memory offer cannot be committed) leaves
+// the CPU accounting of this pool as it was; a successful one returns the grant made by AllocateCPU ----------------------
+//@ func (*supply).Allocate
+//@   requires supplyOK(cs) && r != nil && typeis(r, *request) && rq(r).full >= 0
+//@   requires o != nil ==> o.a != nil && libmem.idle(o.a) && (o.version == o.a.version ==> libmem.offerok(o))
+//@   ensures[C09] result2 != nil ==> cs.isolated.Equals(old(cs.isolated)) && cs.sharable.Equals(old(cs.sharable)) && cs.grantedShared == old(cs.grantedShared) && cs.grantedReserved == old(cs.grantedReserved)
+//@   ensures[C09,C01] result2 == nil ==> result0 != nil && gr(result0).node == cs.node && gr(result0).exclusive.Size() == effFull(rq(r)) &&
+//@        cs.isolated.Equals(old(cs.isolated).Difference(gr(result0).exclusive)) && cs.sharable.Equals(old(cs.sharable).Difference(gr(result0).exclusive))
+//@   ensures[C09,C03] result2 == nil ==> cs.grantedShared == old(cs.grantedShared) + sharedPortion(gr(result0)) && cs.grantedReserved == old(cs.grantedReserved) + reservedPortion(gr(result0))
